@@ -289,10 +289,22 @@ fn extension_mutations(prop: &str, i: u64, rng: &mut Rng, out: &mut Outcome, dir
         let mut bytes_override: Option<Vec<u8>> = None;
         let (label, must_refuse): (String, bool) = match k {
             0..=3 => {
-                raw.version = *rng.pick(&[1u16, 2, 3, 7, 255, 256, 4096, 65535]);
-                if raw.version == 1 {
+                raw.version = *rng.pick(&[1u16, 1, 2, 3, 7, 255, 256, 4096, 65535]);
+                // every presence pattern of the four optional image fields, for every version
+                let pat = rng.below(16);
+                if pat & 1 == 0 {
+                    raw.image_hash = vec![];
+                }
+                if pat & 2 == 0 {
+                    raw.image_key = vec![];
+                }
+                if pat & 4 == 0 {
+                    raw.image_nonce = vec![];
+                }
+                if pat & 8 == 0 {
                     raw.image_upload_key = vec![];
                 }
+                out.note("forged_version_x_image_pattern", format!("v{}:{:04b}", raw.version.min(3), pat));
                 (format!("valid-version-{}", raw.version), false)
             }
             4 => {
@@ -424,6 +436,20 @@ fn extension_mutations(prop: &str, i: u64, rng: &mut Rng, out: &mut Outcome, dir
                 // round trip through the welcome preview
                 if wl.group_name.as_bytes() != raw.name.as_slice() || wl.nostr_group_id != raw.nostr_group_id {
                     out.violation(format!("{prop}|extension-roundtrip|forged-valid|{label}"), "welcome preview differs from the forged extension".to_string(), json!({}));
+                }
+                // ... and through the joined group: what the library parses out of the group context
+                // must be exactly what was forged into it
+                if with_mdk!(w.clients[r].mdk, x => x.accept_welcome(&wl)).is_ok() {
+                    let gd = with_mdk!(w.clients[r].mdk, x => x.load_mls_group(&wl.mls_group_id).ok().flatten().and_then(|grp| NostrGroupDataExtension::from_group(&grp).ok()));
+                    match gd {
+                        Some(gd) => {
+                            out.count("forged_extensions_compared_field_by_field");
+                            if let Err(what) = gd_matches(&gd, &raw) {
+                                out.violation(format!("{prop}|extension-roundtrip|forged-valid|field={}", what.split(' ').next().unwrap_or("")), format!("{label}: the extension parsed from the joined group differs from the forged bytes in {what} (version {}, image fields present: hash {} key {} nonce {} upload key {})", raw.version, !raw.image_hash.is_empty(), !raw.image_key.is_empty(), !raw.image_nonce.is_empty(), !raw.image_upload_key.is_empty()), json!({"bytes": hex::encode(&bytes)}));
+                            }
+                        }
+                        None => out.violation(format!("{prop}|extension-roundtrip|forged-valid|unreadable-after-join"), format!("{label}: the joined group's extension cannot be parsed"), json!({"bytes": hex::encode(&bytes)})),
+                    }
                 }
                 if label.starts_with("valid-version") {
                     out.note("versions_roundtripped", raw.version.to_string());
